@@ -329,6 +329,45 @@ def synthetic_queries():
         q.append(((("Z", 1),), ((a, 2),)))
         q.append((((a, 2),), (("Z", 1),)))
         q.append(((("Z", 1), (a, 1)), ((a, 3),)))
+    # opaque units of mixed-sign / negative dimensions (speed V1 = 2 V2, frequency F1 = 4 F2)
+    # in numerators, denominators, products and cancelling positions, and a unit defined
+    # as a quotient (Q = 2 A/second) on either side of a fraction
+    for x, y in (("V1", "V2"), ("V2", "V1"), ("F1", "F2"), ("F2", "F1")):
+        for e in (1, -1, 2, -2, 3):
+            q.append((((x, e),), ((y, e),)))
+        for t, e in (("second", 1), ("second", -1), ("second", 2), ("hour", 1)):
+            q.append((((x, 1), (t, e)), ((y, 1), (t, e))))
+            q.append((((x, -1), (t, e)), ((y, -1), (t, e))))
+        q.append((((x, 1), ("hour", 1)), ((y, 1), ("minute", 1))))
+        for a, b in (("A", "B"), ("C", "A"), ("D", "D")):
+            q.append((((x, 1), (a, 1)), ((y, 1), (b, 1))))
+            q.append((((a, 1), (x, -1)), ((b, 1), (y, -1))))
+            q.append((((a, 2), (x, -2)), ((b, 2), (y, -2))))
+            q.append((((a, 1), (x, 1), (y, -1)), ((b, 1),)))
+            q.append((((b, 1),), ((a, 1), (x, 1), (y, -1))))
+            q.append((((a, 1), (x, 2), (y, -1)), ((b, 1), (y, 1))))
+        q.append((((x, 2), (y, -1)), ((y, 1),)))
+        q.append((((x, 1),), ((x, 2), (y, -1))))
+    for v, w_ in (("V1", "V2"), ("V2", "V1")):
+        for f, g in (("F1", "F2"), ("F2", "F1"), ("F1", "F1")):
+            q.append((((v, 1), (f, 1)), ((w_, 1), (g, 1))))
+            q.append((((v, 1), (f, -1)), ((w_, 1), (g, -1))))
+            q.append((((v, -1), (f, 1)), ((w_, -1), (g, 1))))
+    for a in NODES:
+        for t in ("second", "hour"):
+            q.append(((("Q", 1),), ((a, 1), (t, -1))))
+            q.append((((a, 1), (t, -1)), (("Q", 1),)))
+            q.append(((("Q", -1),), ((a, -1), (t, 1))))
+            q.append((((a, -1), (t, 1)), (("Q", -1),)))
+            q.append(((("Q", 2),), ((a, 2), (t, -2))))
+            q.append(((("Q", 1), (t, 1)), ((a, 1),)))
+            q.append((((a, 1),), (("Q", 1), (t, 1))))
+        for b in NODES:
+            q.append((((a, 1), ("Q", -1)), (("second", 1),)))
+            q.append((((a, 1), ("Q", -1)), ((b, 1), ("Q", -1))))
+            q.append((((a, 1), ("Q", -1)), (("minute", 1),)))
+            q.append(((("hour", 1),), ((a, 1), ("Q", -1))))
+            q.append((((a, 2), ("Q", -1)), ((b, 1), ("minute", 1))))
     return q
 
 
@@ -360,6 +399,17 @@ def _syn_chunk(configs):
                 U[a].equals((1 / (rb // ra)) * U[b])
         Z.equals(4 * U["A"] * U["B"])
         U["Z"] = Z
+        from measured import Frequency, Speed
+
+        for nm, dim, sz in (("V1", Speed, 2), ("V2", Speed, 1), ("F1", Frequency, 4), ("F2", Frequency, 1), ("Q", Speed, 2)):
+            U[nm] = dim.unit(f"verif syn {nm}", f"vs{nm}")
+            size[nm] = Decimal(sz)
+        U["V1"].equals(2 * U["V2"])
+        if orient == "down":
+            U["F2"].equals(0.25 * U["F1"])
+        else:
+            U["F1"].equals(4 * U["F2"])
+        U["Q"].equals(2 * U["A"] / Second)
         snap = w.snapshot()
 
         def build(spec):
